@@ -17,7 +17,7 @@ vg_enc_new(unsigned long mbs)
 void
 vg_enc_free(void *e)
 {
-  free(e);
+  vg_free(e);
 }
 
 int
@@ -50,6 +50,22 @@ vg_enc_rle_state(void *e)
   return ((struct encoder_state *)e)->rle_state;
 }
 
+/* what encode() does first ("Finalize initial RLE"): append the pending count byte; no sorting, no coding */
+uint32_t
+vg_enc_finish_rle(void *e, uint32_t *crc)
+{
+  struct encoder_state *s = e;
+  uint8_t *block = (void *)(s->SA + s->max_block_size + GROUP_SIZE);
+
+  if (s->rle_state >= 4) {
+    assert(s->nblock < s->max_block_size);
+    block[s->nblock++] = s->rle_state - 4;
+    s->rle_state = 0;
+  }
+  *crc = s->block_crc;
+  return s->nblock;
+}
+
 size_t
 vg_encode(void *e, uint32_t *crc)
 {
@@ -79,6 +95,11 @@ vg_prefix(const uint16_t *mtfv, uint32_t nm, unsigned cluster_factor, struct vg_
   memcpy(s->SA, mtfv, nm * sizeof(uint16_t));
   s->nmtf = nm;
   as = mtfv[nm - 1] + 1;
+  /* do_mtf() leaves the symbol frequencies in code[0][]; generate_initial_trees() reads them from there */
+  for (v = 0; v < as; v++)
+    s->u.s.code[0][v] = 0;
+  for (g = 0; g < nm; g++)
+    s->u.s.code[0][mtfv[g]]++;
   out->cost = generate_prefix_code(s);
   out->num_trees = s->u.s.num_trees;
   out->num_selectors = s->u.s.num_selectors;
@@ -89,7 +110,7 @@ vg_prefix(const uint16_t *mtfv, uint32_t nm, unsigned cluster_factor, struct vg_
       out->length[t][v] = s->u.s.length[s->u.s.tmap_new2old[t]][v];
   for (g = 0; g < s->u.s.num_selectors && g < sizeof(out->selector); g++)
     out->selector[g] = s->u.s.tmap_old2new[s->u.s.selector[g]];
-  free(s);
+  vg_free(s);
   return 0;
 }
 
@@ -107,8 +128,8 @@ vg_bwt(const uint8_t *text, int32_t n, uint8_t *last)
   /* divbwt leaves the BWT (last column) in the low bytes of SA: see do_mtf(), which reads bwt[i] = SA[i] bytes */
   for (i = 0; i < n; i++)
     last[i] = (uint8_t)SA[i];
-  free(T);
-  free(SA);
-  free(bucket);
+  vg_free(T);
+  vg_free(SA);
+  vg_free(bucket);
   return idx;
 }
